@@ -26,27 +26,18 @@ import numpy as np
 
 np.seterr(all='ignore')
 
-# scipy 1.18.1 in this sandbox segfaults in scipy.linalg.solve(a, b, overwrite_a=True, overwrite_b=True, check_finite=False)
-# when `a` is F-contiguous and numerically singular (found by the C06 history fuzzer: a MALS micro system of a singular
-# operator).  A crash would take the whole check down, so rank-deficient systems are answered with the LinAlgError that a
-# healthy LAPACK driver raises.  Third-party defect, not a property of scikit_tt (C07 assumes solvable micro systems).
+# scipy 1.18.1 in this sandbox segfaults in scipy.linalg.solve(a, b, overwrite_a=True, ...) when `a` is F-contiguous and either
+# complex or numerically singular (20 out of 20 trials; found by the C06 history fuzzer in the thorough tier: MALS micro systems).
+# A crash would take the whole check down.  The overwrite flags only concern scratch arrays of the caller (never a TT core), so
+# the harness forwards the call without them; results are identical.  Third-party defect, not a property of scikit_tt.
 import scipy.linalg as _sl
 _scipy_solve = _sl.solve
 
 
 def _guarded_solve(a, b, *args, **kw):
-    # only the crashing call pattern is touched: overwrite flags + an exactly zero pivot (what LAPACK gesv reports as info > 0)
-    if kw.get('overwrite_a') and kw.get('overwrite_b'):
-        try:
-            aa = np.array(a, copy=True)
-            if aa.ndim == 2 and aa.shape[0] == aa.shape[1] and aa.shape[0] > 0 and np.all(np.isfinite(aa)):
-                lu, _piv = _sl.lu_factor(aa, check_finite=False)
-                if np.any(np.diag(lu) == 0):
-                    raise np.linalg.LinAlgError('singular matrix (harness guard against a scipy crash)')
-        except np.linalg.LinAlgError:
-            raise
-        except Exception:
-            pass
+    kw = dict(kw)
+    kw['overwrite_a'] = False
+    kw['overwrite_b'] = False
     return _scipy_solve(a, b, *args, **kw)
 
 
